@@ -54,6 +54,10 @@ acls:
     apply-access: ["dns-recursion"]
   - match-subnets: [127.0.0.4/32]
     apply-access: []
+  - match-subnets: [127.0.0.5/32]
+    apply-access: ["http"]
+  - match-subnets: [127.0.0.6/32]
+    apply-access: ["http", "http-metrics"]
   - match-subnets: [127.0.0.0/8, "::1/128"]
     apply-access: ["dns-recursion", "http-ro"]
 """
@@ -690,6 +694,41 @@ def http_get(src, dst, port, path, v6=False):
         return "error:%s" % type(e).__name__
 
 
+def http_keepalive(src, dst, port, paths):
+    """several GETs on ONE HTTP/1.1 connection; returns one status (or error string) per path"""
+    out = []
+    try:
+        s = socket.socket(socket.AF_INET, socket.SOCK_STREAM)
+        s.settimeout(3)
+        s.bind((src, 0))
+        s.connect((dst, port))
+        buf = b""
+        for path in paths:
+            s.sendall(("GET %s HTTP/1.1\r\nHost: x\r\n\r\n" % path).encode())
+            while b"\r\n\r\n" not in buf:
+                d = s.recv(65536)
+                if not d:
+                    raise EOFError()
+                buf += d
+            head, buf = buf.split(b"\r\n\r\n", 1)
+            lines = head.decode("latin1").split("\r\n")
+            clen = 0
+            for l in lines[1:]:
+                if l.lower().startswith("content-length:"):
+                    clen = int(l.split(":", 1)[1])
+            while len(buf) < clen:
+                d = s.recv(65536)
+                if not d:
+                    raise EOFError()
+                buf += d
+            buf = buf[clen:]
+            out.append(int(lines[0].split()[1]))
+        s.close()
+    except Exception as e:
+        out += ["error:%s" % type(e).__name__] * (len(paths) - len(out))
+    return out
+
+
 def scenario_http(rnd):
     out = []
     paths = ["/", "/metrics", "/api/v1/leases.json", "/nonexistent"]
@@ -697,6 +736,17 @@ def scenario_http(rnd):
                          ("127.0.0.4", False, "127.0.0.1"), (None, True, "::1")):
         for path in paths:
             out.append({"src": src or "::1", "path": path, "status": http_get(src, dst, 9968, path, v6)})
+    # clients whose rule grants some of the http permissions, one request per connection ...
+    for src in ("127.0.0.5", "127.0.0.6"):
+        for path in paths:
+            out.append({"src": src, "path": path, "status": http_get(src, "127.0.0.1", 9968, path)})
+    # ... and several requests on one keep-alive connection, permitted ones before refused ones and back
+    for src, seq in (("127.0.0.5", ["/", "/api/v1/leases.json", "/metrics", "/"]),
+                     ("127.0.0.6", ["/metrics", "/api/v1/leases.json", "/", "/nonexistent"]),
+                     ("127.0.0.2", ["/", "/metrics"]),
+                     ("127.0.0.1", ["/", "/metrics", "/api/v1/leases.json"])):
+        for path, st in zip(seq, http_keepalive(src, "127.0.0.1", 9968, seq)):
+            out.append({"src": src, "path": path, "status": st, "keepalive": True})
     return {"requests": out}
 
 
